@@ -111,7 +111,7 @@ Proof. vm_compute. repeat split; reflexivity. Qed.
     pluggy's call order computed from Gen/HookOrder.v, [Tie.run_event] goes through the regenerated
     dispatch table of OnEvent.  Each theorem: for ALL model states and ALL events the interpreted
     source yields exactly (the encoding of) the state and the publication list of the model. *)
-From NL Require Import Registrars.Syntax Gen.RegistrarsFuns Gen.HookOrder Registrars.Tie.
+From NL Require Import Registrars.Syntax Gen.RegistrarsFuns Gen.HookOrder Registrars.Tie Registrars.NoRaise.
 Local Open Scope string_scope.
 
 (** one obligation per registrar: every hook it implements against the model's function *)
@@ -209,8 +209,9 @@ Theorem C11_tie_whole_run_topics : forall rn es,
     forall k, g_on_topic k ps = map (option_map enc_value) (on_topic k (pubs_run rn es)).
 Proof. exact tie_whole_run_topics. Qed.
 
-(** the encoded state has exactly the classes and tracked attributes the translator found, and
-    the dispatch table is the one Registrars/Order.v ties to the model *)
+(** PINS (reflexivity between regenerated tables and terms written here, no simulation): the encoded
+    state has exactly the classes and tracked attributes the translator found; the dispatch table is
+    the one Registrars/Order.v ties to the model *)
 Theorem C11_tie_state_shape : forall rn s,
   map (fun cs => (fst cs, map (fun ak => (fst ak, kind_of (snd ak))) (snd cs))) (loadR rn s) =
   map (fun g => (g_name g, g_attrs g)) Gen.RegistrarsFuns.registrars.
@@ -225,6 +226,70 @@ Example C11_tie_example :
   Some (map (option_map enc_value) (on_topic TTraceInfo (pubs_run 1 ex_killed))) /\
   option_map (fun Gp => List.length (snd Gp)) (run_whole 1 ex_killed) = Some 32%nat.
 Proof. vm_compute. split; reflexivity. Qed.
+
+(** ------------------------------------------------------------------
+    Exceptions.  In the code a raising hook implementation kills the relay: later events are not
+    dispatched and on_end_run is not awaited.  [pubs_run] (and [run_whole]) go on after a [Raise];
+    the next theorems say that this never matters for the streams the theorems quantify over, and
+    give the driver that stops as the code does. *)
+
+(** no hook implementation of a registrar raises on a well-formed stream cut anywhere (on_end_run
+    included): the KeyErrors of on_start_prompt / on_end_prompt and the asserts of RunInfoRegistrar
+    are unreachable under the grammar of C09 *)
+Theorem C11_no_raise : forall r es, wf_prefix r es = true -> raised (pubs_run r es) = false.
+Proof. exact no_raise. Qed.
+
+(** the relay as the code runs it ([run_events_stop]: stop dispatching at the first event in which
+    an implementation raised) on the regenerated bodies = the model's [on_event] iterated with the
+    same stop rule, for ALL states and ALL streams (well formed or not) *)
+Theorem C11_tie_relay_stops_at_raise : forall rn es s,
+  run_events_stop rn (loadR rn s) es =
+  Some (loadR rn (fst (fst (feed_stop rn s es))), map enc_pub (snd (fst (feed_stop rn s es))), snd (feed_stop rn s es)).
+Proof. exact tie_feed_stop. Qed.
+
+(** the whole run with that rule (no on_end_run after an exception): on a stream accepted by
+    wf_prefix it is never cut short and sends exactly 'run_no' followed by the model's [pubs_run] *)
+Theorem C11_tie_whole_run_stop : forall rn es, wf_prefix rn es = true ->
+  run_whole_stop rn es =
+  Some (loadR rn (fst (on_end_run rn (state_events rn es))),
+        GPub (VStr "run_no") (VInt rn) :: map enc_pub (pubs_run rn es), false).
+Proof. exact tie_whole_run_stop. Qed.
+
+(** outside the grammar the run IS cut short (OnStartPrompt with no trace call open: KeyError,
+    relay dead, prompt_notice never ended) *)
+Example C11_tie_run_stops_at_raise :
+  option_map (fun x => (snd x, g_on_topic TPromptNotice (snd (fst x))))
+    (run_whole_stop 1 [StartTrace 1 1 10; StartPrompt 1 1 1 1 3; EndTrace 1 1]) = Some (true, []).
+Proof. exact run_stops_at_raise. Qed.
+
+(** PIN of everything the translator does not translate (asserts on the context / on time stamps,
+    ASSUMED to hold; statements and values that only feed untracked dataclass fields): its text, as
+    regenerated, is the text the tie was written for.  No semantics is given to these positions. *)
+Theorem C11_tie_untranslated_pinned :
+  map fst Gen.RegistrarsFuns.untranslated =
+  ["StdoutRegistrar.on_write_stdout"; "PromptNoticeRegistrar.on_start_prompt"; "PromptInfoRegistrar.on_start_trace";
+   "PromptInfoRegistrar.on_end_trace_call"; "PromptInfoRegistrar.on_start_prompt"; "PromptInfoRegistrar.on_end_prompt";
+   "TraceInfoRegistrar.on_end_run"; "TraceInfoRegistrar.on_start_trace"; "TraceInfoRegistrar.on_end_trace";
+   "RunInfoRegistrar.on_initialize_run"; "RunInfoRegistrar.on_start_run"; "RunInfoRegistrar.on_end_run";
+   "RunNoRegistrar.on_initialize_run"] /\
+  flat_map snd Gen.RegistrarsFuns.untranslated =
+  ["assert context.run_arg"; "StdoutInfo: written_at=event.written_at";
+   "assert context.run_arg"; "PromptNotice: started_at=event.started_at";
+   "assert context.run_arg"; "assert context.run_arg";
+   "assert context.run_arg"; "PromptInfo: started_at=event.started_at";
+   "replace: ended_at=event.ended_at";
+   "replace: ended_at=datetime.datetime.utcnow()";
+   "assert context.run_arg"; "TraceInfo: started_at=event.started_at";
+   "replace: ended_at=event.ended_at";
+   "assert context.run_arg";
+   "if isinstance(context.run_arg.statement, str): script = context.run_arg.statement else: script = None";
+   "RunInfo: script=script";
+   "assert event.started_at.tzinfo is timezone.utc"; "started_at = event.started_at.replace(tzinfo=None)";
+   "replace: started_at=started_at";
+   "assert event.ended_at.tzinfo is timezone.utc"; "ended_at = event.ended_at.replace(tzinfo=None)";
+   "replace: ended_at=ended_at"; "replace: exception=event.raised"; "replace: result=event.returned";
+   "assert context.run_arg"].
+Proof. split; reflexivity. Qed.
 
 Print Assumptions C11_active_set.
 Print Assumptions C11_trace_info_once.
@@ -248,3 +313,7 @@ Print Assumptions C11_tie_whole_run.
 Print Assumptions C11_tie_whole_run_topics.
 Print Assumptions C11_tie_state_shape.
 Print Assumptions C11_tie_dispatch.
+Print Assumptions C11_no_raise.
+Print Assumptions C11_tie_relay_stops_at_raise.
+Print Assumptions C11_tie_whole_run_stop.
+Print Assumptions C11_tie_untranslated_pinned.
